@@ -49,6 +49,8 @@ NA = {
     "C07": "PendingNotifyHandler, bounded per-connection channels and back-pressure are scheduling of real channels/tasks",
     "C08": "ConcurrentDial/SmartDial are built on FuturesUnordered (Arc-linked task list with atomics) and boxed futures; quantifier is over completion schedules",
     "C12": "ExternalAddresses is Vec<Multiaddr>-backed and was tried: one symbolic confirm/expire event on a list of 3 one-component addresses (Vec insert/remove at a symbolic position + Arc<Vec<u8>> equality) did not finish in 30 min; ListenAddresses is a HashSet, PeerAddresses an LruCache, Swarm::listeners() lives in the Swarm's hash maps",
+    "C15": "tried through a cfg(libp2p_verif) mirror of Message::{encode,decode}: Message::decode copies the frame into a heap Bytes, whose bytes come back symbolic to CBMC, so the ls-response loop (varint length, UTF-8 validation, Vec<Protocol> push) forks without bound: even ONE symbolic input byte did not finish in 30 min (10 718 paths explored); only the three keyword round trips verified, which is too thin to claim",
+    "C14": "hand-polled listener_select_proto with a concrete script and a symbolic read-chunk size did not finish in 10 min at 5 GB (design-phase probe), and the message layer underneath (C15) is itself out of reach",
     "C11": "from_full_sets/add/remove operate on HashMap/HashSet of strings; " + HASHMAP,
     "C16": "property is about X25519/ChaCha20-Poly1305/ed25519 under an active adversary; symbolic execution of the ciphers does not terminate and stubbing them removes the property",
     "C18": "X.509/DER parsing and signature verification go through ring/webpki FFI, not executable under Kani",
